@@ -4,7 +4,11 @@
 // case:  {"tmpl": hex template text, "tok": 0 (white-space fields) | k>0 (one token per started group of k bytes),
 //         "mllama": bool, "proj": 0 (nil) | 1 (empty, non-nil) | 2 (["vision"]),
 //         "num_ctx": int, "png": bool (images are {"w","h","c"} descriptions turned into real PNGs; needed for mllama+proj 2),
-//         "msgs": [{"role": hex, "content": hex, "images": [hex data, ...]}, ...]}
+//         "msgs": [{"role": hex, "content": hex, "images": [hex data, ...], "tool_calls": n}, ...],
+//         "tok_fail": k (the tokenizer handed to chatPrompt returns an error on its k-th call; 0 = never)}
+// All cases of one run go through ONE process in order, so state that chatPrompt keeps across requests (pooled buffers,
+// caches) is exercised: a case whose tokenizer/template fails is followed by ordinary cases.
+// Candidate renderings that the template refuses (execution error) are reported as cand = -1.
 // reply: {"outcome": 0 ok | 1 errTooManyImages | 2 panic | 3 other error, "err": text, "prompt": hex,
 //         "images": [{"id": n, "data": hex, "src": index of the original image (conversation order) with these bytes, -1 if none}],
 //         "after": [hex content of every message after the call],
@@ -17,6 +21,7 @@ import (
 	"context"
 	"encoding/binary"
 	"errors"
+	"fmt"
 	"image"
 	"image/color"
 	"image/png"
@@ -74,6 +79,10 @@ func messages(v any, asPNG bool) []api.Message {
 	for _, x := range l {
 		m := x.(map[string]any)
 		msg := api.Message{Role: hx.Unhex(m["role"]), Content: hx.Unhex(m["content"])}
+		for j := 0; j < hx.Int(m["tool_calls"]); j++ {
+			msg.ToolCalls = append(msg.ToolCalls, api.ToolCall{Function: api.ToolCallFunction{
+				Name: fmt.Sprintf("fn%d", j), Arguments: api.ToolCallFunctionArguments{"arg": j}}})
+		}
 		if imgs, ok := m["images"].([]any); ok {
 			for _, i := range imgs {
 				if asPNG {
@@ -140,7 +149,9 @@ func main() {
 			l = append(l, orig[k:]...)
 			var b bytes.Buffer
 			if err := tmpl.Execute(&b, template.Values{Messages: l}); err != nil {
-				return map[string]any{"harness_error": "execute: " + err.Error()}
+				cand = append(cand, -1)
+				candPrompt = append(candPrompt, "")
+				continue
 			}
 			t, _ := tok(context.Background(), b.String())
 			cand = append(cand, len(t))
@@ -149,10 +160,21 @@ func main() {
 		res := map[string]any{"cand": cand, "cand_prompt": candPrompt}
 
 		msgs := messages(c["msgs"], asPNG)
+		chatTok := tok
+		ncalls := 0
+		if k := hx.Int(c["tok_fail"]); k > 0 {
+			chatTok = func(ctx context.Context, s string) ([]int, error) {
+				ncalls++
+				if ncalls == k {
+					return nil, errors.New("verif: tokenizer failure")
+				}
+				return tok(ctx, s)
+			}
+		}
 		var prompt string
 		var images []llm.ImageData
 		if p := hx.Guard(func() any {
-			prompt, images, err = server.VerifChatPrompt(context.Background(), m, tok, &opts, msgs, nil)
+			prompt, images, err = server.VerifChatPrompt(context.Background(), m, chatTok, &opts, msgs, nil)
 			return nil
 		}); p != nil {
 			res["outcome"] = 2
